@@ -92,11 +92,19 @@ fn real_rhs(prefix: &Path, postfix: Option<&Glob<'_>>, p: &str) -> bool {
 }
 
 fn leading_flag_before_removed(ast: &syntax::Seq) -> bool {
-    // a flag group lies inside or directly before the removed prefix text: approximated as
-    // "the expression contains a flag group before its last top-level separator / tree"
+    // a flag group (at any nesting depth) lies textually before a top-level separator or tree
+    // wildcard: it is inside or before text that partitioning may remove
+    fn has_flag(n: &syntax::Node) -> bool {
+        match &n.kind {
+            syntax::Kind::Flag(_) => true,
+            syntax::Kind::Alt(bs) => bs.iter().any(|b| b.iter().any(has_flag)),
+            syntax::Kind::Rep { body, .. } => body.iter().any(has_flag),
+            _ => false,
+        }
+    }
     let mut seen_flag = false;
     for n in ast {
-        if n.is_flag() {
+        if has_flag(n) {
             seen_flag = true;
         }
         if n.is_boundary() && seen_flag {
